@@ -51,7 +51,7 @@ func verifSetup() (m MemCache, a net.IP, t verifTpl) {
 	shardNo = 2
 	m = verifNewCache()
 	verifAssume(int(verifFNV4(a, t.tid)%2) == verifSplit(2))
-	w := &verifW{b: make([]byte, 20+16)}
+	w := &verifW{b: make([]byte, 20+verifTplSetLen)}
 	verifWriteHeader(w)
 	t.writeTplSet(w)
 	msg, err := NewDecoder(a, w.b).Decode(m)
@@ -70,7 +70,7 @@ func verifBadSet(w *verifW, kind int, t verifTpl, blen int) uint16 {
 	if kind == 0 {
 		verifAssume(verifAll(id >= 4, id <= 255))
 	} else {
-		verifAssume(verifAll(id > 255, id != t.tid))
+		verifAssume(verifAll(id > 255, id != t.tid, id != t.decoy))
 	}
 	w.u16(id)
 	w.u16(uint16(4 + blen))
@@ -115,7 +115,7 @@ func VerifV9InsertSet() {
 	if kind == 1 {
 		hb, ht := verifFNV4(a, bad), verifFNV4(a, t.tid)
 		if verifKnown("C04-hash-collision") {
-			verifAssume(hb != ht)
+			verifAssume(verifAll(hb != ht, hb != verifFNV4(a, t.decoy)))
 		}
 	}
 	got, _ := NewDecoder(a, w2.b).Decode(m)
@@ -136,10 +136,10 @@ func VerifV9Truncate() {
 	verifAssume(!dup)
 	ipfix.InfoModel[ipfix.ElementKey{0, big.spec.ElementID}] = big.entry
 	bid := verifNondetU16()
-	verifAssume(verifAll(bid > 255, bid != t.tid))
+	verifAssume(verifAll(bid > 255, bid != t.tid, bid != t.decoy))
 	hb, ht := verifFNV4(a, bid), verifFNV4(a, t.tid)
 	if verifKnown("C04-hash-collision") {
-		verifAssume(hb != ht)
+		verifAssume(verifAll(hb != ht, hb != verifFNV4(a, t.decoy), ht != verifFNV4(a, t.decoy)))
 	}
 	wt := &verifW{b: make([]byte, 20+12)}
 	verifWriteHeader(wt)
